@@ -79,6 +79,17 @@ Definition canon_prim (ls : lenstyle) (e : Encoding.enc) (p : prim) (tag : optio
 Definition elem_kind (e : Encoding.enc) (u : ty) : bool :=
   match u with TPrim _ => true | TStruct _ => match e with EDefault => true | _ => false end | _ => false end.
 
+(* a repeated field: tagged (the loop stops at the first other tag), or positional over primitives as the very
+   last thing in its buffer (the loop stops because the element reader fails on nothing) *)
+Definition vec_ok (ls : lenstyle) (e : Encoding.enc) (u : ty) (tag : option N) (ctx : option bytes) : bool :=
+  match tag with
+  | Some _ => elem_kind e u
+  | None => match u, ctx with
+            | TPrim p, Some [] => is_err (framed_dec ls false None (prim_dec e p) [])
+            | _, _ => false
+            end
+  end.
+
 Fixpoint nodup_b (l : list N) : bool :=
   match l with [] => true | x :: r => negb (existsb (N.eqb x) r) && nodup_b r end.
 
@@ -102,20 +113,16 @@ Fixpoint canon (ls : lenstyle) (e : Encoding.enc) (t : ty) (tag : option N) (v :
           end
       end
   | TVec u, VList xs =>
-      match tag with
-      | None => None
-      | Some _ =>
-          if elem_kind e u then
-            (fix go (xs : list value) : option bytes :=
-               match xs with
-               | [] => Some []
-               | x :: xr => match canon ls e u tag x None, go xr with
-                            | Some g, Some gr => if is_nil g then None else Some (g ++ gr)
-                            | _, _ => None
-                            end
-               end) xs
-          else None
-      end
+      if vec_ok ls e u tag ctx then
+        (fix go (xs : list value) : option bytes :=
+           match xs with
+           | [] => Some []
+           | x :: xr => match canon ls e u tag x None, go xr with
+                        | Some g, Some gr => if is_nil g then None else Some (g ++ gr)
+                        | _, _ => None
+                        end
+           end) xs
+      else None
   | TStruct fs, VRec vs =>
       match e with
       | EDefault =>
